@@ -221,6 +221,9 @@ _RE_PLAYBACK = re.compile(
 
 
 def _parse_chunk(r, chunk):
+    cut = chunk.find("Manual Harness Summary")
+    if cut >= 0:
+        chunk = chunk[:cut]
     r.raw += chunk
     # regular format: every check listed
     for m in re.finditer(r"^Check \d+: (\S+)\n\s+- Status: (\S+)\n\s+- Description: \"(.*)\"\n(?:\s+- Location: (.*)\n)?",
